@@ -28,7 +28,7 @@ confirm)
   }
   echo "== without the change"; r0=$(run_demo without); echo "demo exit: $r0"; tail -3 "$WT/demo.without.log"
   ( cd "$WT" && git checkout -q -- . && git clean -fdq )
-  ( cd "$WT" && git apply "$PATCH" ) || { echo "PATCH DOES NOT APPLY"; exit 2; }
+  ( cd "$WT" && { git apply "$PATCH" 2>/dev/null || git apply -3 "$PATCH"; } ) || { echo "PATCH DOES NOT APPLY"; exit 2; }
   ( cd "$WT" && go build ./... ) || { echo "DOES NOT COMPILE"; exit 2; }
   echo "== suite with the change"; ( cd "$WT" && go test -vet=off -count=1 ./... 2>&1 | grep -v 'no test files' | grep -v '^ok' ); echo "suite done (no output above = all ok)"
   echo "== with the change"; r1=$(run_demo with); echo "demo exit: $r1"; tail -5 "$WT/demo.with.log"
@@ -45,7 +45,7 @@ check)
     WT=$(mktemp -d /tmp/seedrepo-XXXXXX); rmdir "$WT"
     git -C /repo worktree add -q --detach "$WT" HEAD || exit 2
     trap 'git -C /repo worktree remove --force "$WT"' EXIT
-    ( cd "$WT" && git apply "$PATCH" ) || { echo "PATCH DOES NOT APPLY"; exit 2; }
+    ( cd "$WT" && { git apply "$PATCH" 2>/dev/null || git apply -3 "$PATCH"; } ) || { echo "PATCH DOES NOT APPLY"; exit 2; }
     export VERIF_REPO="$WT"
   fi
   for id in "$@"; do
